@@ -176,6 +176,26 @@ var spKinds = []spKind{
 		}
 		return out
 	}),
+	// the same lists with multi-byte identifiers as the last token of every element (positions count bytes)
+	exprKind("FuncDecl.Params(multi-byte)", func(n int) string {
+		return "package p\n\nfunc f(" + labels(n, func(i int) string { return fmt.Sprintf("e%d 数据Ωμέγα", i) }, ", ") + ") {}\n"
+	}, func(f *dst.File) []dst.Node {
+		var out []dst.Node
+		for _, s := range f.Decls[0].(*dst.FuncDecl).Type.Params.List {
+			out = append(out, s)
+		}
+		return out
+	}),
+	exprKind("CallExpr.Args(multi-byte)", func(n int) string {
+		return "package p\n\nvar x = g(" + labels(n, func(i int) string { return fmt.Sprintf("e%d.größe日本", i) }, ", ") + ")\n"
+	}, func(f *dst.File) []dst.Node {
+		var out []dst.Node
+		for _, s := range f.Decls[0].(*dst.GenDecl).Specs[0].(*dst.ValueSpec).Values[0].(*dst.CallExpr).Args {
+			out = append(out, s)
+		}
+		return out
+	}),
+	stmtKind("multi-byte", "e%d = größe日本"),
 	exprKind("FuncDecl.Results", func(n int) string {
 		return "package p\n\nfunc f() (" + labels(n, func(i int) string { return fmt.Sprintf("e%d int", i) }, ", ") + ") { return }\n"
 	}, func(f *dst.File) []dst.Node {
